@@ -88,6 +88,37 @@ template <class T> static Q3 mulq (Q3 v, const Matrix44<T>& G)
 {
     return Q3{ v.x * (quad) G[0][0] + v.y * (quad) G[1][0] + v.z * (quad) G[2][0], v.x * (quad) G[0][1] + v.y * (quad) G[1][1] + v.z * (quad) G[2][1], v.x * (quad) G[0][2] + v.y * (quad) G[1][2] + v.z * (quad) G[2][2] };
 }
+// (used by section 3d and by frames_*: a row relative per component; a fixed rotation axis)
+template <class T> static void check_row_rel (vp::Ctx& c, const std::string& key, const char* what, const Matrix44<T>& G, int row, Q3 want, double k)
+{
+    const quad eps = EPS<T> ();
+    for (int j = 0; j < 3; ++j)
+    {
+        quad d = qabs ((quad) G[row][j] - want[j]), tol = (quad) k * eps * qabs (want[j]) + (quad) std::numeric_limits<T>::denorm_min ();
+        if (want[j] != 0) C09_MEAS (key + "|" + TN<T>::n () + "|rel/eps", d / (eps * qabs (want[j])));
+        VP_REQUIRE (c, d <= tol, key, TN<T>::n () << " " << what << ": row " << row << " = (" << G[row][0] << " " << G[row][1] << " " << G[row][2] << ") expected " << q3str (want) << ": component " << j << " is off by " << qstr (d) << " (bound " << qstr (tol) << " = " << k << " eps relative to the component)");
+    }
+}
+// a^ * R = a^ for the rotation R = A^T * B between two frames (A == identity: pass a default-constructed matrix)
+template <class T> static void check_axis_fixed (vp::Ctx& c, const std::string& key, const char* what, const Matrix44<T>& A, const Matrix44<T>& B, Q3 axis, FT t)
+{
+    Q3   a   = unit (axis);
+    quad tol = t.tol ();
+    for (int j = 0; j < 3; ++j)
+    {
+        quad r = -a[j];
+        for (int i = 0; i < 3; ++i)
+        {
+            quad rij = 0;
+            for (int k = 0; k < 3; ++k)
+                rij += (quad) A[k][i] * (quad) B[k][j];
+            r += a[i] * rij;
+        }
+        C09_MEAS_FT (key + "|" + TN<T>::n () + "|axis-fixed", qabs (r), t);
+        VP_REQUIRE (c, qabs (r) <= tol, key, TN<T>::n () << " " << what << ": (axis^ * R - axis^)[" << j << "] = " << qstr (r) << " for axis^ = " << q3str (a) << " (bound " << qstr (tol) << ")");
+    }
+}
+
 // the documented frame of alignZAxisWithTargetDir for a non-degenerate pair: z = target, x = up x target, y = z x x
 static QM<4> alignQ (Q3 t, Q3 u)
 {
@@ -408,6 +439,10 @@ template <class T> static void frames_case (vp::Ctx& c)
             QM<4> E = QM<4>::from (Mi) * E_translation<4> (mp) * rodrigues_rowvec<4> (ax.x, ax.y, ax.z, th) * E_translation<4> (pp);
             check_slots<T> (c, "nextFrame/rotation", "nextFrame vs Mi * T(-pi) * R(ti->tj) * T(pj)", G, E, 3, tr);
             check_row<T> (c, "nextFrame/tangent", "nextFrame x axis vs tj/|tj|", G, 0, unit (tjq), tr);
+            // the angle only has float precision, the AXIS of the rotation between the two frames has the precision
+            // of T (see section 3d; measured, 2e6 cases per type: 4.1 eps for K < 3, 1.26 K eps for K < 30, 0.70 K eps
+            // beyond, K = 1 / cos (theta/2); no new draws)
+            check_axis_fixed<T> (c, "nextFrame/axis-not-fixed", "nextFrame, rotation Mi^T G between the frames, axis ti x tj", Mi, G, ax, ft (eps, 32, 8, 1 / cosq (th / 2)));
             for (int j = 0; j < 3; ++j)
             {
                 quad tol = 4 * eps * (qabs ((quad) pi[j]) + qabs ((quad) pj[j]));
@@ -993,3 +1028,542 @@ VP_REQUIRE_LABELS (frames_near_f, "computeLocalFrame", "alignZAxisWithTargetDir"
 VP_RANDOM (frames_near_d, 300000, 6000000, C09_NEARF_RULE) { frames_near_case<double> (c); }
 VP_LABELS (frames_near_d, C09_NEARF_LABELS)
 VP_REQUIRE_LABELS (frames_near_d, "computeLocalFrame", "alignZAxisWithTargetDir", "rotationMatrixWithUpDir", "rotationMatrix", "firstFrame", "nextFrame", "angle_2^-k", "angle_pi/2+-2^-k", "angle_pi-2^-k", "k_4..12", "k_13..digits-1", "k_digits..digits+3", "from_near_y_axis", "from_along_y", "bound_below_1e-3")
+
+// ===================================================================================================================
+// 3d. direction arguments with components in a RATIO 2^-k (ratio_frames_*)
+//     Every direction / tangent / normal argument of the frame builders, and the derived axes (from x to, up x target,
+//     normal x xDir, ti x tj), with one or two components 2^-k times the largest, k = 1 .. digits+10 (gen_ratio_vec /
+//     gen_ratio_pair in c09_util.h): the direction is tilted out of a coordinate axis / plane by 2^-k rad.  Pairs are
+//     at generic angles (|sin| >= 0.05), i.e. well inside the contract.  Oracle and bounds are those of frames_*
+//     (eps (c1 + c2 K), every slot against the quad frame), plus
+//       * rows that are a normalised input (z axis of alignZAxisWithTargetDir, x axis of computeLocalFrame, tangent
+//         of firstFrame): every component RELATIVE to itself, 6 eps |component| - a dropped component is a 100 %
+//         error for every k (measured 1.61 eps);
+//       * nextFrame: the rotation between the two frames, Mi^T G, must leave (ti x tj)^ fixed at the precision of T
+//         (bound eps (32 + 8 / cos (theta/2)); the slot comparison itself only has float precision because the angle
+//         comes from acosf): a rotation about an axis tilted by 1e-7 rad fails this by 1e8 eps in double;
+//       * rotationMatrix: the same fixed-axis statement for (from x to)^.
+// ===================================================================================================================
+enum
+{
+    RF_ROTMAT,
+    RF_ROTUP,
+    RF_ALIGN,
+    RF_LOCAL,
+    RF_FIRST,
+    RF_NEXT,
+    RF_LAST,
+    RF_NOPS,
+    RFL0 = RF_NOPS, // + RL_ labels of the ratio vector
+    RFL_MODE0 = RFL0 + RL_COUNT, // + RP_ mode
+    RFL_FROM_RATIO = RFL_MODE0 + RP_NMODES,
+    RFL_FROM_NEAR_Y_NOT_CHECKED,
+    RFL_PI_ZERO
+};
+#define C09_RATIO_FRAME_LABELS                                                                                         \
+    "rotationMatrix", "rotationMatrixWithUpDir", "alignZAxisWithTargetDir", "computeLocalFrame", "firstFrame", "nextFrame", "lastFrame", C09_RATIO_LABELS, "first_direction_has_the_ratio", "second_direction_has_the_ratio", "cross_product_has_the_ratio", "first_direction_axis_aligned_second_has_the_ratio", "rotationMatrixWithUpDir_from_has_a_ratio", "from_too_close_to_y_axis:bound_above_1/4_not_checked", "firstFrame_pi_zero"
+static const int RATIO_FRAME_OPS[] = { RF_ROTMAT, RF_ROTMAT, RF_ROTUP, RF_ROTUP, RF_ALIGN, RF_ALIGN, RF_LOCAL, RF_LOCAL, RF_FIRST, RF_FIRST, RF_NEXT, RF_NEXT, RF_NEXT, RF_LAST };
+
+template <class T> static void ratio_frames_case (vp::Ctx& c)
+{
+    vp::Src&   s   = c.s;
+    int        op  = s.pick (RATIO_FRAME_OPS);
+    const quad eps = EPS<T> ();
+    RatioInfo  ri;
+    c.label (op);
+    switch (op)
+    {
+        case RF_ROTMAT:
+        {
+            Vec3<T> f, t;
+            int     mode = gen_ratio_pair<T> (s, f, t, ri);
+            label_ratio<T> (c, ri, RFL0);
+            c.label (RFL_MODE0 + mode);
+            VP_NOTE (c, TN<T>::n () << " rotationMatrix (component ratios) from=" << vstr (f, 3) << " to=" << vstr (t, 3));
+            Q3   fq = toq (f), tq = toq (t);
+            quad sn = sin_between (fq, tq);
+            if (!(sn >= (quad) 1e-3)) c.discard ("pair rounded to nearly parallel");
+            Matrix44<T> G  = rotationMatrix (f, t);
+            quad        th = atan2q (len (cross (fq, tq)), dot (fq, tq));
+            // bounds of frames_* (measured here, 2.1e6 cases per type: orthonormality 18 eps, from->to 9.0 eps, slots 8.8 eps,
+            // axis fixed 3.1 eps for K < 3; 0.6 / 0.27 / 0.51 / 0.50 K eps for K >= 30)
+            FT t1 = ft (eps, 40, 3, 1 / cosq (th / 2));
+            check_frame<T> (c, "rotationMatrix-ratio", G, ft (eps, 80, 3, t1.K));
+            VP_REQUIRE (c, G[3][0] == 0 && G[3][1] == 0 && G[3][2] == 0, "rotationMatrix-ratio/origin", "rotationMatrix has a translation: " << mstr (G, 4));
+            Q3 img = mulq (unit (fq), G), want = unit (tq);
+            for (int j = 0; j < 3; ++j)
+            {
+                C09_MEAS_FT (std::string ("rotationMatrix-ratio/from-to|") + TN<T>::n (), qabs (img[j] - want[j]), t1);
+                VP_REQUIRE (c, qabs (img[j] - want[j]) <= t1.tol (), "rotationMatrix-ratio/from-to", TN<T>::n () << " from^ * R = " << q3str (img) << " expected to^ = " << q3str (want) << " (bound " << qstr (t1.tol ()) << ") R=" << mstr (G, 4));
+            }
+            Q3    ax = cross (fq, tq);
+            QM<4> E  = rodrigues_rowvec<4> (ax.x, ax.y, ax.z, th);
+            check_slots<T> (c, "rotationMatrix-ratio/axis", "rotationMatrix vs rotation about from x to", G, E, 3, t1);
+            check_axis_fixed<T> (c, "rotationMatrix-ratio/axis-not-fixed", "rotationMatrix, axis from x to", Matrix44<T> (), G, ax, t1);
+            break;
+        }
+        case RF_ALIGN:
+        {
+            Vec3<T> t, u;
+            int     mode = gen_ratio_pair<T> (s, t, u, ri);
+            int     gb   = (int) s.byte ();
+            label_ratio<T> (c, ri, RFL0);
+            c.label (RFL_MODE0 + mode);
+            VP_NOTE (c, TN<T>::n () << " alignZAxisWithTargetDir (component ratios) target=" << vstr (t, 3) << " up=" << vstr (u, 3));
+            quad sn = sin_between (toq (t), toq (u));
+            if (!(sn >= (quad) 1e-3)) c.discard ("pair rounded to nearly parallel");
+            Matrix44<T> G;
+            fill_garbage (G, gb);
+            alignZAxisWithTargetDir (G, t, u);
+            FT t1 = ft (eps, 8, 3, 1 / sn); // as frames_* (measured here: orthonormality 2.7 eps, slots 1.34 eps for K < 3, 0.45 K eps for K < 30; z axis 1.45 eps relative per component)
+            check_frame<T> (c, "alignZAxis-ratio", G, ft (eps, 12, 3, 1 / sn));
+            VP_REQUIRE (c, G[3][0] == 0 && G[3][1] == 0 && G[3][2] == 0, "alignZAxis-ratio/origin", "alignZAxisWithTargetDir has a translation: " << mstr (G, 4));
+            check_row_rel<T> (c, "alignZAxis-ratio/z-axis-component", "alignZAxisWithTargetDir z axis vs target/|target|", G, 2, unit (toq (t)), 6);
+            check_slots<T> (c, "alignZAxis-ratio/up", "alignZAxisWithTargetDir vs (up x target, z x x, target)", G, alignQ (toq (t), toq (u)), 3, t1);
+            break;
+        }
+        case RF_ROTUP:
+        {
+            Vec3<T>   f, t, u;
+            RatioInfo rf;
+            bool      fr = s.coin ();
+            if (fr)
+                f = gen_ratio_vec<T> (s, rf, -8, 8);
+            else
+                f = gen_dir<T> (s);
+            int mode = gen_ratio_pair<T> (s, t, u, ri);
+            label_ratio<T> (c, ri, RFL0);
+            c.label (RFL_MODE0 + mode);
+            if (fr)
+            {
+                label_ratio<T> (c, rf, RFL0);
+                c.label (RFL_FROM_RATIO);
+            }
+            VP_NOTE (c, TN<T>::n () << " rotationMatrixWithUpDir (component ratios) from=" << vstr (f, 3) << " to=" << vstr (t, 3) << " up=" << vstr (u, 3));
+            bool along_y = f.x == 0 && f.z == 0;
+            quad sn = sin_between (toq (t), toq (u));
+            if (!(sn >= (quad) 1e-3)) c.discard ("pair rounded to nearly parallel");
+            // from is paired with the world up (0,1,0) internally: a from tilted out of the y axis by 2^-k is a nearly
+            // parallel pair (outside the statement); bounds scale with 1 / sin (from, y) as in frames_near_*
+            quad        Kf = along_y ? (quad) 0 : 1 / sin_between (toq (f), Q3{ 0, 1, 0 });
+            Matrix44<T> G  = rotationMatrixWithUpDir (f, t, u);
+            VP_REQUIRE (c, (all_finite<Matrix44<T>, 4> (G)), "rotationMatrixWithUpDir-ratio/nonfinite", TN<T>::n () << " rotationMatrixWithUpDir returned " << mstr (G, 4));
+            VP_REQUIRE (c, G[3][0] == 0 && G[3][1] == 0 && G[3][2] == 0, "rotationMatrixWithUpDir-ratio/origin", "rotationMatrixWithUpDir has a translation: " << mstr (G, 4));
+            // as frames_near_* (measured here: orthonormality 4.1 eps, slots 1.97 eps, from->to 1.97 eps for K < 3; 1.1 / 0.56 /
+            // 0.45 K eps for K < 30)
+            FT t1 = ft (eps, 10, 3, Kf + 1 / sn), tf = ft (eps, 10, 3, Kf);
+            if (t1.tol () > (quad) 0.25)
+            {
+                c.label (RFL_FROM_NEAR_Y_NOT_CHECKED);
+                break;
+            }
+            check_frame<T> (c, "rotationMatrixWithUpDir-ratio", G, ft (eps, 20, 3, t1.K));
+            Q3 img = mulq (unit (toq (f)), G), want = unit (toq (t));
+            for (int j = 0; j < 3; ++j)
+            {
+                C09_MEAS_FT (std::string ("rotationMatrixWithUpDir-ratio/from-to|") + TN<T>::n (), qabs (img[j] - want[j]), tf);
+                VP_REQUIRE (c, qabs (img[j] - want[j]) <= tf.tol (), "rotationMatrixWithUpDir-ratio/from-to", TN<T>::n () << " from^ * R = " << q3str (img) << " expected to^ = " << q3str (want) << " (bound " << qstr (tf.tol ()) << ") R=" << mstr (G, 4));
+            }
+            if (!along_y)
+            {
+                QM<4> E = transpose (alignQ (toq (f), Q3{ 0, 1, 0 })) * alignQ (toq (t), toq (u));
+                check_slots<T> (c, "rotationMatrixWithUpDir-ratio/up", "rotationMatrixWithUpDir vs align(from,(0,1,0))^T * align(to,up)", G, E, 3, t1);
+            }
+            break;
+        }
+        case RF_LOCAL:
+        {
+            Vec3<T> p = gen_spoint<T> (s), xd, n;
+            int     mode = gen_ratio_pair<T> (s, xd, n, ri);
+            label_ratio<T> (c, ri, RFL0);
+            c.label (RFL_MODE0 + mode);
+            VP_NOTE (c, TN<T>::n () << " computeLocalFrame (component ratios) p=" << vstr (p, 3) << " xDir=" << vstr (xd, 3) << " normal=" << vstr (n, 3));
+            quad sn = sin_between (toq (xd), toq (n));
+            if (!(sn >= (quad) 1e-3)) c.discard ("pair rounded to nearly parallel");
+            Matrix44<T> G  = computeLocalFrame (p, xd, n);
+            FT          t1 = ft (eps, 8, 3, 1 / sn); // as frames_* (measured here: orthonormality 2.6 eps, slots 1.48 eps for K < 3, 0.67 K eps for K < 30; x axis 1.32 eps relative per component)
+            check_frame<T> (c, "computeLocalFrame-ratio", G, ft (eps, 12, 3, 1 / sn));
+            VP_REQUIRE (c, same<T> (G[3][0], p.x) && same<T> (G[3][1], p.y) && same<T> (G[3][2], p.z), "computeLocalFrame-ratio/origin", TN<T>::n () << " origin row of " << mstr (G, 4) << " is not p=" << vstr (p, 3));
+            Q3 x = unit (toq (xd));
+            check_row_rel<T> (c, "computeLocalFrame-ratio/x-axis-component", "computeLocalFrame x axis vs xDir/|xDir|", G, 0, x, 6);
+            Q3 y = unit (cross (toq (n), x)), z = cross (x, y);
+            check_slots<T> (c, "computeLocalFrame-ratio/normal", "computeLocalFrame vs (x, normal x x, x x y)", G, frameQ (x, y, z, toq (p)), 3, t1);
+            break;
+        }
+        case RF_FIRST:
+        {
+            Vec3<T> pi ((T) 0, (T) 0, (T) 0), a, b;
+            bool    pz = s.coin ();
+            if (!pz) pi = gen_point<T> (s);
+            int mode = gen_ratio_pair<T> (s, a, b, ri);
+            Vec3<T> pj = pi + a, pk = pi + b;
+            label_ratio<T> (c, ri, RFL0);
+            c.label (RFL_MODE0 + mode);
+            if (pz) c.label (RFL_PI_ZERO);
+            VP_NOTE (c, TN<T>::n () << " firstFrame (component ratios) pi=" << vstr (pi, 3) << " pj=" << vstr (pj, 3) << " pk=" << vstr (pk, 3));
+            Q3 d1 = toq (pj) - toq (pi), d2 = toq (pk) - toq (pi);
+            if (!(len (d1) > 0) || !(len (d2) > 0)) c.discard ("coincident points after rounding");
+            quad sn = sin_between (d1, d2);
+            if (!(sn >= (quad) 1e-3)) c.discard ("pair rounded to nearly parallel");
+            Matrix44<T> G  = firstFrame (pi, pj, pk);
+            // as frames_* (measured here: orthonormality 4.4 eps, y.(pk-pi) 0.98 eps, whole frame 2.0 eps for K < 3, 1.15 /
+            // 0.38 / 0.68 K eps for K < 30; tangent 1.61 eps relative per component)
+            FT          t1 = ft (eps, 6, 3, 1 / sn);
+            check_frame<T> (c, "firstFrame-ratio", G, ft (eps, 18, 3, 1 / sn));
+            VP_REQUIRE (c, same<T> (G[3][0], pi.x) && same<T> (G[3][1], pi.y) && same<T> (G[3][2], pi.z), "firstFrame-ratio/origin", TN<T>::n () << " origin row of " << mstr (G, 4) << " is not pi=" << vstr (pi, 3));
+            check_row_rel<T> (c, "firstFrame-ratio/tangent-component", "firstFrame x axis vs (pj-pi)/|pj-pi|", G, 0, unit (d1), 6);
+            Q3   n  = Q3{ (quad) G[1][0], (quad) G[1][1], (quad) G[1][2] };
+            quad pd = qabs (dot (n, unit (d2)));
+            C09_MEAS_FT (std::string ("firstFrame-ratio/normal-plane|") + TN<T>::n (), pd, t1);
+            VP_REQUIRE (c, pd <= t1.tol (), "firstFrame-ratio/normal-plane", TN<T>::n () << " y axis " << q3str (n) << " is not normal to pk-pi (dot = " << qstr (pd) << ", bound " << qstr (t1.tol ()) << ")");
+            // the whole frame: x = d1^, y = (d1 x d2)^, z = x x y
+            Q3 x = unit (d1), y = unit (cross (d1, d2)), z = cross (x, y);
+            check_slots<T> (c, "firstFrame-ratio/frame", "firstFrame vs (t, t x (pk-pi), t x n)", G, frameQ (x, y, z, toq (pi)), 3, ft (eps, 12, 3, 1 / sn));
+            break;
+        }
+        case RF_NEXT:
+        {
+            Vec3<T> pi = gen_point<T> (s), pj = gen_point<T> (s), ti, tj;
+            int     mode = gen_ratio_pair<T> (s, ti, tj, ri);
+            Matrix44<T> Mi = gen_frame_along<T> (s, ti, pi);
+            label_ratio<T> (c, ri, RFL0);
+            c.label (RFL_MODE0 + mode);
+            VP_NOTE (c, TN<T>::n () << " nextFrame (component ratios) Mi=" << mstr (Mi, 4) << " pi=" << vstr (pi, 3) << " pj=" << vstr (pj, 3) << " ti=" << vstr (ti, 3) << " tj=" << vstr (tj, 3));
+            Q3   tiq = toq (ti), tjq = toq (tj);
+            quad sn = sin_between (tiq, tjq);
+            if (!(sn >= (quad) 1e-3)) c.discard ("pair rounded to nearly parallel");
+            Vec3<T>     ti2 = ti, tj2 = tj;
+            Matrix44<T> G   = nextFrame (Mi, pi, pj, ti2, tj2);
+            check_frame<T> (c, "nextFrame-ratio", G, ft (eps, 48));
+            quad th = atan2q (len (cross (tiq, tjq)), dot (tiq, tjq));
+            Q3   ax = cross (tiq, tjq);
+            // measured: 4.1 eps (K < 3), 1.5 K eps (K < 30), 0.61 K eps (K >= 30); orthonormality 10.7 eps; slots / tangent in
+            // units of the float eps: float 5.6 (K < 3) 1.8 K (K < 30), double 2.0 / 0.6 K; ti, tj after the call 1.44 eps relative
+            check_axis_fixed<T> (c, "nextFrame-ratio/axis-not-fixed", "nextFrame, rotation Mi^T G between the frames, axis ti x tj", Mi, G, ax, ft (eps, 32, 8, 1 / cosq (th / 2)));
+            FT    tr    = ft (EPSF (), 20, 8, 1 / sn); // as frames_*: the angle has float precision
+            quad  mp[3] = { -(quad) pi.x, -(quad) pi.y, -(quad) pi.z }, pp[3] = { (quad) pj.x, (quad) pj.y, (quad) pj.z };
+            QM<4> E     = QM<4>::from (Mi) * E_translation<4> (mp) * rodrigues_rowvec<4> (ax.x, ax.y, ax.z, th) * E_translation<4> (pp);
+            check_slots<T> (c, "nextFrame-ratio/rotation", "nextFrame vs Mi * T(-pi) * R(ti->tj) * T(pj)", G, E, 3, tr);
+            check_row<T> (c, "nextFrame-ratio/tangent", "nextFrame x axis vs tj/|tj|", G, 0, unit (tjq), tr);
+            // the tangents are normalised in place (documented side effect of the non-const references)
+            check_row_rel<T> (c, "nextFrame-ratio/ti-normalised-component", "nextFrame ti after the call vs ti/|ti|", Matrix44<T> (ti2.x, ti2.y, ti2.z, 0, 0, 0, 0, 0, 0, 0, 0, 0, 0, 0, 0, 1), 0, unit (tiq), 6);
+            check_row_rel<T> (c, "nextFrame-ratio/tj-normalised-component", "nextFrame tj after the call vs tj/|tj|", Matrix44<T> (tj2.x, tj2.y, tj2.z, 0, 0, 0, 0, 0, 0, 0, 0, 0, 0, 0, 0, 1), 0, unit (tjq), 6);
+            for (int j = 0; j < 3; ++j)
+            {
+                quad tol = 4 * eps * (qabs ((quad) pi[j]) + qabs ((quad) pj[j]));
+                VP_REQUIRE (c, qabs ((quad) G[3][j] - (quad) pj[j]) <= tol, "nextFrame-ratio/origin", TN<T>::n () << " origin row of " << mstr (G, 4) << " is not pj=" << vstr (pj, 3));
+            }
+            break;
+        }
+        default: // RF_LAST
+        {
+            Vec3<T>     pi = gen_point<T> (s), pj = gen_point<T> (s);
+            Vec3<T>     tx = gen_ratio_vec<T> (s, ri, -8, 8);
+            Matrix44<T> Mi = gen_frame_along<T> (s, tx, pi);
+            label_ratio<T> (c, ri, RFL0);
+            VP_NOTE (c, TN<T>::n () << " lastFrame (component ratios) Mi=" << mstr (Mi, 4) << " pi=" << vstr (pi, 3) << " pj=" << vstr (pj, 3));
+            Matrix44<T> G = lastFrame (Mi, pi, pj);
+            check_frame<T> (c, "lastFrame-ratio", G, ft (eps, 4));
+            // the axes of the previous frame, every component relative to itself (1 * x + 0 * ... is exact)
+            for (int i = 0; i < 3; ++i)
+                check_row_rel<T> (c, "lastFrame-ratio/axes-component", "lastFrame axes vs previous frame", G, i, Q3{ (quad) Mi[i][0], (quad) Mi[i][1], (quad) Mi[i][2] }, 2);
+            for (int j = 0; j < 3; ++j)
+            {
+                quad tol = 4 * eps * (qabs ((quad) pi[j]) + qabs ((quad) pj[j]));
+                VP_REQUIRE (c, qabs ((quad) G[3][j] - (quad) pj[j]) <= tol, "lastFrame-ratio/origin", TN<T>::n () << " origin row of " << mstr (G, 4) << " is not pj=" << vstr (pj, 3));
+            }
+            break;
+        }
+    }
+}
+#define C09_RATIO_FRAMES_RULE                                                                                          \
+    "one of the 7 frame builders with a direction argument (or the cross product of the two) in which one or two components are 2^-k times the largest, k uniform in 1..digits+10 (own k per small component), third component large or exactly zero, all sign patterns, significands 1 or random, scale 2^[-8,8]; pair modes: first / second direction has the ratio and the other is at a generic angle (0.05..3.09 rad or a right angle, built in quad), both perpendicular to a ratio vector (their cross product has the ratio), first along a coordinate axis and second with the ratio; rotationMatrixWithUpDir: from generic or with a ratio (bound scaled by 1/sin(from, y axis), not checked when above 1/4); firstFrame: pi zero or generic; oracle and bounds as frames_*, plus normalised-input rows relative per component (6 eps), nextFrame / rotationMatrix rotation axis fixed at eps(T) (32 + 8 / cos(theta/2)); every case non-trivial"
+VP_RANDOM (ratio_frames_f, 300000, 6000000, C09_RATIO_FRAMES_RULE) { ratio_frames_case<float> (c); }
+VP_LABELS (ratio_frames_f, C09_RATIO_FRAME_LABELS)
+VP_REQUIRE_LABELS (ratio_frames_f, "rotationMatrix", "rotationMatrixWithUpDir", "alignZAxisWithTargetDir", "computeLocalFrame", "firstFrame", "nextFrame", "lastFrame", C09_RATIO_LABELS, "first_direction_has_the_ratio", "second_direction_has_the_ratio", "cross_product_has_the_ratio", "first_direction_axis_aligned_second_has_the_ratio", "rotationMatrixWithUpDir_from_has_a_ratio", "firstFrame_pi_zero")
+VP_RANDOM (ratio_frames_d, 300000, 6000000, C09_RATIO_FRAMES_RULE) { ratio_frames_case<double> (c); }
+VP_LABELS (ratio_frames_d, C09_RATIO_FRAME_LABELS)
+VP_REQUIRE_LABELS (ratio_frames_d, "rotationMatrix", "rotationMatrixWithUpDir", "alignZAxisWithTargetDir", "computeLocalFrame", "firstFrame", "nextFrame", "lastFrame", C09_RATIO_LABELS, "first_direction_has_the_ratio", "second_direction_has_the_ratio", "cross_product_has_the_ratio", "first_direction_axis_aligned_second_has_the_ratio", "rotationMatrixWithUpDir_from_has_a_ratio", "firstFrame_pi_zero")
+
+// ===================================================================================================================
+// 3e. an argument that is THE SAME OBJECT as another argument or as the destination (alias_*)
+//     Wherever the parameter types allow it without a cast:
+//       * Matrix33::setShear (const S& xy) / shear (const S& xy) take the scalar BY REFERENCE: xy may refer to any of
+//         the nine elements of the matrix itself (m.shear (m[1][0]));
+//       * rotationMatrix (v, v), rotationMatrixWithUpDir with from / to / up the same object (2 or all 3),
+//         computeLocalFrame (p, p, n) / (p, x, p), firstFrame (pi, pj, pi) / (pi, pj, pj), nextFrame / lastFrame with
+//         pi and pj the same object and with the result assigned to the object passed as Mi, addOffset with inMat and
+//         ref the same object, the result assigned to it, and tOffset / rOffset / sOffset the same object.
+//     Oracle: bit-identical to the same call with every argument a separate object holding the same value.  Both calls
+//     go through one non-inlined wrapper taking references (the same machine code, which cannot assume anything about
+//     aliasing).  Not possible without casts (and therefore not covered): a Vec / Shear6 parameter of a Matrix member
+//     referring into the matrix; alignZAxisWithTargetDir's vectors (passed by value) referring to its result;
+//     nextFrame's ti and tj the same object is possible but is an exactly parallel pair normalised twice (outside
+//     the statement, and the two normalisations differ by rounding), so it is not asserted.
+// ===================================================================================================================
+template <class T> C09_NOINLINE static void al_setShear (Matrix33<T>& m, const T& xy) { m.setShear (xy); }
+template <class T> C09_NOINLINE static void al_shear (Matrix33<T>& m, const T& xy) { m.shear (xy); }
+template <class T> C09_NOINLINE static void al_rotmat (Matrix44<T>& out, const Vec3<T>& f, const Vec3<T>& t) { out = rotationMatrix (f, t); }
+template <class T> C09_NOINLINE static void al_rotup (Matrix44<T>& out, const Vec3<T>& f, const Vec3<T>& t, const Vec3<T>& u) { out = rotationMatrixWithUpDir (f, t, u); }
+template <class T> C09_NOINLINE static void al_local (Matrix44<T>& out, const Vec3<T>& p, const Vec3<T>& x, const Vec3<T>& n) { out = computeLocalFrame (p, x, n); }
+template <class T> C09_NOINLINE static void al_first (Matrix44<T>& out, const Vec3<T>& pi, const Vec3<T>& pj, const Vec3<T>& pk) { out = firstFrame (pi, pj, pk); }
+template <class T> C09_NOINLINE static void al_next (Matrix44<T>& out, const Matrix44<T>& Mi, const Vec3<T>& pi, const Vec3<T>& pj, Vec3<T>& ti, Vec3<T>& tj) { out = nextFrame (Mi, pi, pj, ti, tj); }
+template <class T> C09_NOINLINE static void al_last (Matrix44<T>& out, const Matrix44<T>& Mi, const Vec3<T>& pi, const Vec3<T>& pj) { out = lastFrame (Mi, pi, pj); }
+template <class T> C09_NOINLINE static void al_offset (Matrix44<T>& out, const Matrix44<T>& in, const Vec3<T>& t, const Vec3<T>& r, const Vec3<T>& sc, const Matrix44<T>& ref) { out = addOffset (in, t, r, sc, ref); }
+template <class T> static bool bits_equal (const Matrix44<T>& a, const Matrix44<T>& b) { return std::memcmp (&a, &b, sizeof a) == 0; }
+template <class T> static bool bits_equal (const Matrix33<T>& a, const Matrix33<T>& b) { return std::memcmp (&a, &b, sizeof a) == 0; }
+
+enum
+{
+    AL_M33_SETSHEAR,
+    AL_M33_SHEAR,
+    AL_ROTMAT,
+    AL_ROTUP,
+    AL_LOCAL,
+    AL_FIRST,
+    AL_NEXT,
+    AL_LAST,
+    AL_OFFSET,
+    AL_NOPS,
+    ALL_SLOT_ROW0 = AL_NOPS,
+    ALL_SLOT_ROW1,
+    ALL_SLOT_ROW2,
+    ALL_ROTUP_FROM_TO,
+    ALL_ROTUP_TO_UP,
+    ALL_ROTUP_FROM_UP,
+    ALL_ROTUP_ALL,
+    ALL_LOCAL_P_X,
+    ALL_LOCAL_P_N,
+    ALL_FIRST_PK_PI,
+    ALL_FIRST_PK_PJ,
+    ALL_RESULT_IS_MI,
+    ALL_PI_IS_PJ,
+    ALL_OFFSET_REF_IS_IN,
+    ALL_OFFSET_RESULT_IS_IN,
+    ALL_OFFSET_TRS_SAME
+};
+#define C09_ALIAS_LABELS                                                                                               \
+    "m33_setShear_scalar_ref_to_own_slot", "m33_shear_scalar_ref_to_own_slot", "rotationMatrix_from_is_to", "rotationMatrixWithUpDir", "computeLocalFrame", "firstFrame", "nextFrame", "lastFrame", "addOffset", "slot_in_row_0", "slot_in_row_1", "slot_in_row_2", "from_is_to", "to_is_up", "from_is_up", "from_is_to_is_up", "p_is_xDir", "p_is_normal", "pk_is_pi", "pk_is_pj", "result_assigned_to_Mi", "pi_is_pj", "ref_is_inMat", "result_assigned_to_inMat", "tOffset_is_rOffset_is_sOffset"
+static const int ALIAS_OPS[] = { AL_M33_SETSHEAR, AL_M33_SETSHEAR, AL_M33_SHEAR, AL_M33_SHEAR, AL_ROTMAT, AL_ROTUP, AL_ROTUP, AL_LOCAL, AL_FIRST, AL_NEXT, AL_NEXT, AL_LAST, AL_OFFSET, AL_OFFSET };
+
+template <class T> static void alias_case (vp::Ctx& c)
+{
+    vp::Src& s  = c.s;
+    int      op = s.pick (ALIAS_OPS);
+    c.label (op);
+    c.nt ();
+    switch (op)
+    {
+        case AL_M33_SETSHEAR:
+        case AL_M33_SHEAR:
+        {
+            Matrix33<T> m;
+            int         base, eij;
+            bool        masked;
+            gen_structured<Matrix33<T>, T, 3> (s, m, base, masked, eij);
+            int slot = (int) s.below (9);
+            int i = slot / 3, j = slot % 3;
+            // the referenced slot decides the shear: make sure it is a value that matters
+            if (s.coin ()) m[i][j] = gen_param<T> (s);
+            c.label (ALL_SLOT_ROW0 + i);
+            bool        set = op == AL_M33_SETSHEAR;
+            Matrix33<T> a = m, b = m;
+            T           v = m[i][j];
+            VP_NOTE (c, TN<T>::n () << " M33." << (set ? "setShear" : "shear") << " (m[" << i << "][" << j << "]) with the argument referring to the matrix's own element; M=" << mstr (m, 3));
+            if (set)
+            {
+                al_setShear<T> (a, a.x[i][j]);
+                al_setShear<T> (b, v);
+            }
+            else
+            {
+                al_shear<T> (a, a.x[i][j]);
+                al_shear<T> (b, v);
+            }
+            VP_REQUIRE (c, bits_equal (a, b), set ? "m33-setShear(scalar)/argument-aliases-own-slot" : "m33-shear(scalar)/argument-aliases-own-slot", TN<T>::n () << " M33." << (set ? "setShear" : "shear") << " (m[" << i << "][" << j << "]) = " << mstr (a, 3) << " but with a copy of the value " << v << ": " << mstr (b, 3) << "; M=" << mstr (m, 3));
+            break;
+        }
+        case AL_ROTMAT:
+        {
+            Vec3<T> f = gen_near_dir<T> (s), t = f;
+            VP_NOTE (c, TN<T>::n () << " rotationMatrix (v, v) with one object v=" << vstr (f, 3));
+            Matrix44<T> a, b;
+            al_rotmat<T> (a, f, f);
+            al_rotmat<T> (b, f, t);
+            VP_REQUIRE (c, bits_equal (a, b), "rotationMatrix/from-is-to-object", TN<T>::n () << " rotationMatrix (v, v) = " << mstr (a, 4) << " but with two objects: " << mstr (b, 4));
+            break;
+        }
+        case AL_ROTUP:
+        {
+            Vec3<T> f = gen_near_dir<T> (s), t = gen_near_dir<T> (s), u;
+            gen_generic_partner<T> (s, t, u);
+            int         k = (int) s.below (4);
+            Matrix44<T> a, b;
+            c.label (ALL_ROTUP_FROM_TO + k);
+            VP_NOTE (c, TN<T>::n () << " rotationMatrixWithUpDir with " << (k == 0 ? "from and to" : k == 1 ? "to and up" : k == 2 ? "from and up" : "from, to and up") << " the same object; from=" << vstr (f, 3) << " to=" << vstr (t, 3) << " up=" << vstr (u, 3));
+            switch (k)
+            {
+                case 0:
+                {
+                    Vec3<T> t2 = f;
+                    al_rotup<T> (a, f, f, u);
+                    al_rotup<T> (b, f, t2, u);
+                    break;
+                }
+                case 1:
+                {
+                    Vec3<T> u2 = t;
+                    al_rotup<T> (a, f, t, t);
+                    al_rotup<T> (b, f, t, u2);
+                    break;
+                }
+                case 2:
+                {
+                    Vec3<T> u2 = f;
+                    al_rotup<T> (a, f, t, f);
+                    al_rotup<T> (b, f, t, u2);
+                    break;
+                }
+                default:
+                {
+                    Vec3<T> t2 = f, u2 = f;
+                    al_rotup<T> (a, f, f, f);
+                    al_rotup<T> (b, f, t2, u2);
+                    break;
+                }
+            }
+            VP_REQUIRE (c, bits_equal (a, b), "rotationMatrixWithUpDir/same-object-arguments", TN<T>::n () << " rotationMatrixWithUpDir = " << mstr (a, 4) << " but with separate objects: " << mstr (b, 4));
+            break;
+        }
+        case AL_LOCAL:
+        {
+            Vec3<T> x = gen_near_dir<T> (s), n;
+            gen_generic_partner<T> (s, x, n);
+            bool        pn = s.coin ();
+            Matrix44<T> a, b;
+            c.label (pn ? ALL_LOCAL_P_N : ALL_LOCAL_P_X);
+            VP_NOTE (c, TN<T>::n () << " computeLocalFrame with p and " << (pn ? "normal" : "xDir") << " the same object; xDir=" << vstr (x, 3) << " normal=" << vstr (n, 3));
+            if (pn)
+            {
+                Vec3<T> p = n;
+                al_local<T> (a, n, x, n);
+                al_local<T> (b, p, x, n);
+            }
+            else
+            {
+                Vec3<T> p = x;
+                al_local<T> (a, x, x, n);
+                al_local<T> (b, p, x, n);
+            }
+            VP_REQUIRE (c, bits_equal (a, b), "computeLocalFrame/same-object-arguments", TN<T>::n () << " computeLocalFrame = " << mstr (a, 4) << " but with separate objects: " << mstr (b, 4));
+            break;
+        }
+        case AL_FIRST:
+        {
+            Vec3<T> pi = gen_point<T> (s), d = gen_near_dir<T> (s);
+            Vec3<T> pj = pi + d;
+            if (pj == pi) pj = pi + Vec3<T> (1, 2, 3);
+            bool        kj = s.coin ();
+            Matrix44<T> a, b;
+            c.label (kj ? ALL_FIRST_PK_PJ : ALL_FIRST_PK_PI);
+            VP_NOTE (c, TN<T>::n () << " firstFrame with pk and " << (kj ? "pj" : "pi") << " the same object; pi=" << vstr (pi, 3) << " pj=" << vstr (pj, 3));
+            Vec3<T> pk = kj ? pj : pi;
+            if (kj)
+                al_first<T> (a, pi, pj, pj);
+            else
+                al_first<T> (a, pi, pj, pi);
+            al_first<T> (b, pi, pj, pk);
+            VP_REQUIRE (c, bits_equal (a, b), "firstFrame/same-object-arguments", TN<T>::n () << " firstFrame = " << mstr (a, 4) << " but with separate objects: " << mstr (b, 4));
+            break;
+        }
+        case AL_NEXT:
+        {
+            Vec3<T> pi = gen_point<T> (s), pj = gen_point<T> (s), ti = gen_near_dir<T> (s), tj;
+            gen_generic_partner<T> (s, ti, tj);
+            Matrix44<T> Mi = gen_frame_along<T> (s, ti, pi);
+            int         k  = (int) s.below (3); // 0: result is Mi, 1: pi is pj, 2: both
+            if (k != 1) c.label (ALL_RESULT_IS_MI);
+            if (k != 0) c.label (ALL_PI_IS_PJ);
+            if (k != 0) pj = pi;
+            VP_NOTE (c, TN<T>::n () << " nextFrame" << (k != 1 ? ", result assigned to the object passed as Mi" : "") << (k != 0 ? ", pi and pj the same object" : "") << "; Mi=" << mstr (Mi, 4) << " pi=" << vstr (pi, 3) << " pj=" << vstr (pj, 3) << " ti=" << vstr (ti, 3) << " tj=" << vstr (tj, 3));
+            Matrix44<T> a = Mi, b;
+            Vec3<T>     ti1 = ti, tj1 = tj, ti2 = ti, tj2 = tj, pj2 = pj;
+            if (k == 0)
+                al_next<T> (a, a, pi, pj, ti1, tj1);
+            else if (k == 1)
+                al_next<T> (a, Mi, pi, pi, ti1, tj1);
+            else
+                al_next<T> (a, a, pi, pi, ti1, tj1);
+            al_next<T> (b, Mi, pi, pj2, ti2, tj2);
+            VP_REQUIRE (c, bits_equal (a, b), "nextFrame/same-object-arguments", TN<T>::n () << " nextFrame = " << mstr (a, 4) << " but with separate objects: " << mstr (b, 4));
+            VP_REQUIRE (c, ti1 == ti2 && tj1 == tj2, "nextFrame/same-object-arguments", TN<T>::n () << " nextFrame left ti=" << vstr (ti1, 3) << " tj=" << vstr (tj1, 3) << " but with separate objects: " << vstr (ti2, 3) << " " << vstr (tj2, 3));
+            break;
+        }
+        case AL_LAST:
+        {
+            Vec3<T>     pi = gen_point<T> (s), pj = gen_point<T> (s), tx = gen_near_dir<T> (s);
+            Matrix44<T> Mi = gen_frame_along<T> (s, tx, pi);
+            int         k  = (int) s.below (3);
+            if (k != 1) c.label (ALL_RESULT_IS_MI);
+            if (k != 0) c.label (ALL_PI_IS_PJ);
+            if (k != 0) pj = pi;
+            VP_NOTE (c, TN<T>::n () << " lastFrame" << (k != 1 ? ", result assigned to the object passed as Mi" : "") << (k != 0 ? ", pi and pj the same object" : "") << "; Mi=" << mstr (Mi, 4) << " pi=" << vstr (pi, 3) << " pj=" << vstr (pj, 3));
+            Matrix44<T> a = Mi, b;
+            Vec3<T>     pj2 = pj;
+            if (k == 0)
+                al_last<T> (a, a, pi, pj);
+            else if (k == 1)
+                al_last<T> (a, Mi, pi, pi);
+            else
+                al_last<T> (a, a, pi, pi);
+            al_last<T> (b, Mi, pi, pj2);
+            VP_REQUIRE (c, bits_equal (a, b), "lastFrame/same-object-arguments", TN<T>::n () << " lastFrame = " << mstr (a, 4) << " but with separate objects: " << mstr (b, 4));
+            break;
+        }
+        default: // AL_OFFSET
+        {
+            Matrix44<T> in, ref;
+            int         base, eij;
+            bool        masked;
+            gen_structured<Matrix44<T>, T, 4> (s, in, base, masked, eij);
+            gen_structured<Matrix44<T>, T, 4> (s, ref, base, masked, eij);
+            Vec3<T> t = gen_param3<T> (s), sc = gen_param3<T> (s), r;
+            for (int i = 0; i < 3; ++i)
+                r[i] = (T) (gen_angle<T> (s) * (T) 57.29577951308232);
+            int fl = (int) s.below (8); // bit 0: ref is inMat, bit 1: result assigned to inMat, bit 2: t, r, s one object
+            if (fl == 0) fl = 7;
+            if (fl & 1)
+            {
+                ref = in;
+                c.label (ALL_OFFSET_REF_IS_IN);
+            }
+            if (fl & 2) c.label (ALL_OFFSET_RESULT_IS_IN);
+            if (fl & 4)
+            {
+                r  = t;
+                sc = t;
+                c.label (ALL_OFFSET_TRS_SAME);
+            }
+            VP_NOTE (c, TN<T>::n () << " addOffset" << (fl & 1 ? ", ref and inMat the same object" : "") << (fl & 2 ? ", result assigned to inMat" : "") << (fl & 4 ? ", tOffset, rOffset and sOffset the same object" : "") << "; inMat=" << mstr (in, 4) << " t=" << vstr (t, 3) << " r=" << vstr (r, 3) << " s=" << vstr (sc, 3) << " ref=" << mstr (ref, 4));
+            Matrix44<T>        a = in, b, in2 = in, ref2 = ref;
+            Vec3<T>            t2 = t, r2 = r, s2 = sc;
+            Matrix44<T>        outa;
+            Matrix44<T>&       dst  = (fl & 2) ? a : outa;
+            const Matrix44<T>& refa = (fl & 1) ? a : ref;
+            const Vec3<T>&     ra   = (fl & 4) ? t : r;
+            const Vec3<T>&     sa   = (fl & 4) ? t : sc;
+            al_offset<T> (dst, a, t, ra, sa, refa);
+            al_offset<T> (b, in2, t2, r2, s2, ref2);
+            VP_REQUIRE (c, bits_equal (dst, b), "addOffset/same-object-arguments", TN<T>::n () << " addOffset = " << mstr (dst, 4) << " but with separate objects: " << mstr (b, 4));
+            break;
+        }
+    }
+}
+#define C09_ALIAS_RULE                                                                                                 \
+    "an argument that is the same OBJECT as another argument or as the destination, wherever the signature allows it without a cast: Matrix33::setShear / shear (const S&) with the scalar referring to each of the 9 elements of the matrix itself (structured matrix, the element replaced by a parameter value in half of the cases); rotationMatrix (v, v); rotationMatrixWithUpDir with from/to, to/up, from/up or all three one object; computeLocalFrame with p the same object as xDir or normal; firstFrame with pk the same object as pi or pj; nextFrame / lastFrame with the result assigned to the object passed as Mi and / or pi and pj one object; addOffset with ref and inMat one object, the result assigned to inMat, tOffset / rOffset / sOffset one object (any combination); oracle = bit-identical result of the same non-inlined call with separate objects of equal value; every case non-trivial"
+VP_RANDOM (alias_f, 150000, 3000000, C09_ALIAS_RULE) { alias_case<float> (c); }
+VP_LABELS (alias_f, C09_ALIAS_LABELS)
+VP_REQUIRE_LABELS (alias_f, C09_ALIAS_LABELS)
+VP_RANDOM (alias_d, 150000, 3000000, C09_ALIAS_RULE) { alias_case<double> (c); }
+VP_LABELS (alias_d, C09_ALIAS_LABELS)
+VP_REQUIRE_LABELS (alias_d, C09_ALIAS_LABELS)
